@@ -1,12 +1,14 @@
 """C14 — diagnostics point at the offending construct in the user's own file."""
 
 from props import C19
-THEOREM_MODULES = ["Hcl.Theorems.C14", "Hcl.Tie.PinsIo"]
-THEOREMS = {"Hcl.Theorems.C14": ["C14_file", "C14_file_builtin", "C14_line", "C14_region", "C14_region_y86",
+THEOREM_MODULES = ["Hcl.Theorems.C14", "Hcl.Theorems.C14Render", "Hcl.Tie.PinsIo", "Hcl.Tie.PinsErrors"]
+THEOREMS = {"Hcl.Theorems.C14Render": ["C14_render_total", "C14_render_names", "C14_render_regions", "C14_render_located", "C14_render_multiple", "C14_render_leaves", "C14_render_ok_iff", "C14_grammar_tokens_ok", "Errors.render_total", "Errors.render_names_wire", "Errors.render_regions", "Errors.render_multiple"],
+            "Hcl.Theorems.C14": ["C14_file", "C14_file_builtin", "C14_line", "C14_region", "C14_region_y86",
                                  "C14_preamble_ends_line", "C14_preamble_utf8",
                                  "Io.lookupIndex_spec", "Io.lineNumberAndBounds_user", "Io.showRegion_line",
                                  "Yo.validUtf8_boundary", "Yo.validUtf8_append", "C14_token_spans", "Lexer.lexStep_ok", "Lexer.handleConstant_pos",
                                  "C14_expression_spans", "C14_expression_extent", "Parser.parseTier_spans", "Parser.parseExpr_spans"],
+            "Hcl.Tie.PinsErrors": ["Tie.PinsErrors.pinFormatForContents", "Tie.PinsErrors.pinFormatTokenList", "Tie.PinsErrors.pinListWithAnd"],
             "Hcl.Tie.PinsIo": ["Tie.PinsIo.pinMarkNewlines", "Tie.PinsIo.pinFilename", "Tie.PinsIo.pinLineNumberAndBounds", "Tie.PinsIo.pinShowRegion"]}
 
 RULE = ("S-REGION: FileContents::new_from_data + show_region / line_number_and_bounds / range of the real code on small "
@@ -19,7 +21,7 @@ RULE = ("S-REGION: FileContents::new_from_data + show_region / line_number_and_b
         "parse_y86_hcl + Error::format_for_contents with the real preamble; every located region of the rendered text must "
         "be what the model renders for a span the error carries, the message must name the planted wire in quotes (where the fault is about a wire) (correspondence: errors.rs hands its spans to show_region "
         "unchanged), the planted span must be shown exactly as Spec.region renders it and no region may name <builtin> (oracle). "
-        "S-PARSE (as in C11): the spanned tree the real expression parser builds for generated expressions (all operator pairs, "
+        "S-RENDER: rejected inputs of every kind (the generators of S-TEXT, S-DIAG, fault, loop and multi-fault injection, width mutations, loader and run-time errors, plus hand-built error values for the variants no input reaches): the bytes Error::format_for_contents writes against the Lean model Errors.render (all 52 variants), whose regions are Io.showRegion of the spans the error carries. S-PARSE (as in C11): the spanned tree the real expression parser builds for generated expressions (all operator pairs, "
         "unary/in placements, random trees; operands in parentheses at either edge) must be the spanned tree of the Lean parser "
         "model, whose spans are proved to be nested byte ranges of the text (C14_expression_spans). "
         "non-trivial = cases with a specified span / a rejected program; distinct = distinct requests.")
@@ -78,6 +80,20 @@ def judge_parse(req, impl, model, spec):
     return r
 
 
+def judge_render(req, impl, model, spec):
+    """the whole rendered text of a diagnostic (errors.rs format_for_contents) against the Lean model Errors.render"""
+    how = req.split("(how ")[1].split(")")[0] if "(how " in req else "?"
+    variant = req.split("(error (")[1].split(" ")[0].split(")")[0] if "(error (" in req else "?"
+    ok = True
+    what = ""
+    # hand-built error values may carry spans no real error has (the renderer's latent slicing defects): only what the real
+    # code produces must render
+    if impl == "PANIC" and not how.startswith("synthetic"):
+        ok = False
+        what = "rendering the diagnostics of a real rejection panicked (%s, %s)" % (how, variant)
+    return {"corr": impl == model, "oracle": ok, "what": what, "key": req, "cats": ["how-" + how.split("-")[0], "variant-" + variant]}
+
+
 def judge_lex(req, impl, model, spec):
     from props import C11
     r = C11.judge_soup(req, impl, model, spec) if not impl.startswith("same ") else C11.judge(req, impl, model, spec)
@@ -96,4 +112,6 @@ def streams(tier, seed):
             {"name": "lex", "stream": "lex", "count": 3000 if q else 200000, "judge": judge_lex},
             {"name": "literal", "stream": "literal", "count": 2000 if q else 100000, "judge": judge_lex},
             # what the user sees goes through the command line and the two files: the real binary on accepted, rejected, big, not-UTF-8, bare-CR files, good and malformed images, all options and TIMEOUT forms (as in C19)
-            {"name": "cli", "stream": "cli", "count": 200 if q else 5000, "pygen": C19.pygen, "judge": C19.judge}]
+            {"name": "cli", "stream": "cli", "count": 200 if q else 5000, "pygen": C19.pygen, "judge": C19.judge},
+            # the text of the diagnostics, byte for byte against the model of errors.rs (as in C14)
+            {"name": "render", "stream": "render", "count": 2500 if q else 120000, "judge": judge_render}]
